@@ -47,11 +47,10 @@ pub(crate) async fn connect_inproc(
       let monitor_tx_opt = core_arc.core_state.read().get_monitor_sender_clone();
       if let Some(monitor) = monitor_tx_opt {
         let _ = monitor
-          .send(SocketEvent::ConnectFailed {
+          .try_send(SocketEvent::ConnectFailed {
             endpoint: connector_uri_str.clone(),
             error_msg: err_msg,
-          })
-          .await;
+          });
       }
       let _ = reply_tx_user.send(Err(zmq_err));
       return;
@@ -119,10 +118,10 @@ pub(crate) async fn connect_inproc(
         tracing::warn!(connector_core_handle, inproc_name = %name, "Inproc socket type mismatch: {}", e);
         let monitor_tx = core_arc.core_state.read().get_monitor_sender_clone();
         if let Some(monitor) = monitor_tx {
-          let _ = monitor.send(SocketEvent::ConnectFailed {
+          let _ = monitor.try_send(SocketEvent::ConnectFailed {
             endpoint: connector_uri_str,
             error_msg: e.to_string(),
-          }).await;
+          });
         }
         let _ = reply_tx_user.send(Err(e));
         return;
@@ -163,11 +162,10 @@ pub(crate) async fn connect_inproc(
       let monitor_tx = core_arc.core_state.read().get_monitor_sender_clone();
       if let Some(monitor) = monitor_tx {
         let _ = monitor
-          .send(SocketEvent::Connected {
+          .try_send(SocketEvent::Connected {
             endpoint: connector_uri_str.clone(),
             peer_addr: format!("inproc-binder-for-{}", name),
-          })
-          .await;
+          });
       }
 
       let _ = reply_tx_user.send(Ok(()));
@@ -177,11 +175,10 @@ pub(crate) async fn connect_inproc(
       let monitor_tx = core_arc.core_state.read().get_monitor_sender_clone();
       if let Some(monitor) = monitor_tx {
         let _ = monitor
-          .send(SocketEvent::ConnectFailed {
+          .try_send(SocketEvent::ConnectFailed {
             endpoint: connector_uri_str,
             error_msg: e.to_string(),
-          })
-          .await;
+          });
       }
       let _ = reply_tx_user.send(Err(e));
     }
@@ -191,11 +188,10 @@ pub(crate) async fn connect_inproc(
       let monitor_tx = core_arc.core_state.read().get_monitor_sender_clone();
       if let Some(monitor) = monitor_tx {
         let _ = monitor
-          .send(SocketEvent::ConnectFailed {
+          .try_send(SocketEvent::ConnectFailed {
             endpoint: connector_uri_str,
             error_msg: err_msg.clone(),
-          })
-          .await;
+          });
       }
       let _ = reply_tx_user.send(Err(ZmqError::Internal(err_msg)));
     }
